@@ -350,6 +350,49 @@ func cmdCheck(args []string) int {
 			}(oo, fname, o.Kind == "cover", caseFiles)
 		}
 	}
+	// table obligations (finite domains decided by the solver / by enumeration)
+	if *prop == "C01" && *only == "" {
+		td, err := loadTables(workDir)
+		if err != nil {
+			undecided = append(undecided, "lookup tables: "+err.Error())
+			fmt.Printf("UNDECIDED property=%s function=tables reason=%q\n", *prop, firstLineOf(err.Error()))
+		} else {
+			seenFn := map[string]bool{}
+			for _, eo := range tableObligations(td) {
+				if !seenFn[eo.Function] {
+					seenFn[eo.Function] = true
+					funcs = append(funcs, eo.Function+" [finite domain]")
+				}
+				oo := &oblOut{Function: eo.Function, Name: eo.Name, Kind: "table", Text: eo.Text}
+				outs = append(outs, oo)
+				if eo.Enum {
+					oo.Backend = "enum"
+					if eo.EnumOK {
+						oo.Status = "unsat"
+					} else {
+						oo.Status = "sat"
+						oo.output = eo.EnumInfo
+					}
+					continue
+				}
+				fname := filepath.Join(workDir, sanitizeFile(eo.Function+"__"+eo.Name)+".smt2")
+				oo.File = fname
+				oo.Bytes = len(eo.SMT)
+				if err := os.WriteFile(fname, []byte(eo.SMT), 0o644); err != nil {
+					oo.Status = "error"
+					continue
+				}
+				swg.Add(1)
+				go func(oo *oblOut, fname string) {
+					defer swg.Done()
+					res := solve.Run(fname, 4*timeout, "z3-new,z3,cvc5")
+					mu.Lock()
+					oo.Status, oo.Backend, oo.Seconds, oo.output = res.Status, res.Solver, res.Seconds, res.Output
+					mu.Unlock()
+				}(oo, fname)
+			}
+		}
+	}
 	swg.Wait()
 	// second chance: an obligation that ran out of time (machine load, solver
 	// luck) is retried alone with a long limit before it is reported
